@@ -30,7 +30,9 @@ func init() {
 }
 
 func c08Families(tier string) []engine.Family {
-	sc := docScope{Nodes: tierPick(tier, 3, 4), UBJTypes: tierPick(tier, 8, 15), JSONTok: 0, JSONAtoms: tierPick(tier, 1, 2), NumStride: tierPick(tier, 9, 1), Ctx: tierPick(tier, 3, 0), ScStride: 1}
+	// thorough: 4-node CBOR trees, 3-node UBJSON trees over all 15 element types (the 4-node UBJSON space
+	// times 9 pairs x 2 entries x chunkings did not finish within the internal deadline), all contexts, all numbers
+	sc := docScope{Nodes: tierPick(tier, 3, 4), UBJNodes: 3, UBJTypes: tierPick(tier, 8, 15), JSONTok: 0, JSONAtoms: tierPick(tier, 1, 2), NumStride: tierPick(tier, 9, 1), Ctx: tierPick(tier, 3, 0), ScStride: 1}
 	fams := allDocFamilies(sc, func(x *engine.Exec, c *DocCase) {
 		if c.Ref.Status != model.Complete || c.Fam == "json-structure" || len(c.Doc) > 600 {
 			return
